@@ -238,3 +238,43 @@ package asn1
 //@ requires 0 <= n
 //@ loop 1 invariant 0 <= l && l <= 9 && i == n >> (7 * uint64(l)) && i >= 0 && (l == 0 ==> i == n) && (l >= 1 ==> n >> (7 * uint64(l - 1)) > 0)
 //@ ensures [least-number-of-seven-bit-groups] 1 <= result && result <= 9 && (result == 9 || n >> (7 * uint64(result)) == 0) && (result == 1 || n >> (7 * uint64(result - 1)) > 0)
+
+// Times on the encoding side (X.690 11.7/11.8 as profiled by RFC 5280 4.1.2.5): UTCTime exactly for
+// calendar years 1950..2049, GeneralizedTime for every other year 0..9999; both encoders accept
+// exactly the years they can represent and write the year digits first.
+//@ func outsideUTCRange
+//@ props C10 C03
+//@ pure
+//@ site Year#1 as y
+//@ ensures [utctime-exactly-for-calendar-years-1950-to-2049] y.called && (result <==> (y.res < 1950 || y.res >= 2050))
+//@ at y assert [the-year-of-the-time-itself-in-its-own-zone] y.t == t
+
+//@ func appendUTCTime
+//@ props C10 C03
+//@ arith int
+//@ modifies nothing
+//@ frame-trusted appends to the buffer it is given
+//@ site Year#1 as y
+//@ site appendTwoDigits#1 as d19
+//@ site appendTwoDigits#2 as d20
+//@ site appendTimeCommon#1 as tc
+//@ ensures [accepts-exactly-the-years-1950-to-2049] y.called && (err == nil <==> (1950 <= y.res && y.res < 2050))
+//@ ensures [the-rest-is-the-common-time-of-day-form] err == nil ==> tc.called && ret == tc.res
+//@ at y assert [the-year-of-the-time-itself] y.t == t
+//@ at d19 assert [two-digit-year-of-the-1900s] d19.v == y.res - 1900 && d19.dst == dst
+//@ at d20 assert [two-digit-year-of-the-2000s] d20.v == y.res - 2000 && d20.dst == dst
+//@ at tc assert [same-time] tc.t == t
+
+//@ func appendGeneralizedTime
+//@ props C10 C03
+//@ arith int
+//@ modifies nothing
+//@ frame-trusted appends to the buffer it is given
+//@ site Year#1 as y
+//@ site appendFourDigits#1 as d4
+//@ site appendTimeCommon#1 as tc
+//@ ensures [accepts-exactly-the-years-0-to-9999] y.called && (err == nil <==> (0 <= y.res && y.res <= 9999))
+//@ ensures [the-rest-is-the-common-time-of-day-form] err == nil ==> tc.called && ret == tc.res
+//@ at y assert [the-year-of-the-time-itself] y.t == t
+//@ at d4 assert [four-digit-year] d4.v == y.res && d4.dst == dst
+//@ at tc assert [same-time] tc.t == t
